@@ -180,8 +180,6 @@ class Gen:
         if sty not in ("ppl_%s_t" % D, "ppl_const_%s_t" % D):
             return False
         mutates = sty == "ppl_%s_t" % D
-        if suffix == "simplify_using_context_assign" and D.startswith("Octagonal_Shape"):
-            return False          # the C++ operation itself reaches PPL_UNREACHABLE on small inputs (unchanged tree): outside C20
         if suffix.startswith("BHZ03_") or suffix.startswith("BGP99_"):
             return False          # certificate-parameterised powerset widenings: no one-to-one C++ method name
         rest = params[1:]
@@ -506,7 +504,7 @@ class Gen:
         m = re.match(r"ppl_%s_has_(upper|lower)_bound$" % re.escape(D), name)
         if m and len(params) == 5:
             for r in R + [4]:
-                for var in (0, 1, 7):
+                for var in (0, 1):     # Box::has_*_bound does not check its Variable: an out-of-range one is UB in the C++ operation itself
                     self.w("  { Dom::T* proto = Dom::make(%d); cif::CCoef n(77), d(78); Coefficient mn(77), md(78); int cl = 5; bool mcl = false; int mres = 0;" % r)
                     self.w("    cif::run_self<Dom>(\"%s\", \"r%d-var%d\", *proto, false, [&](Dom::H h) { return %s(h, %d, n.h, d.h, &cl); }," % (name, r, var, name, var))
                     self.w("      [&](Dom::T& t) { mres = RET(t.has_%s_bound(Variable(%d), mn, md, mcl)); return mres; }, nullptr," % (m.group(1), var))
